@@ -30,6 +30,7 @@
 #include <validation.h>
 
 #include <atomic>
+#include <unistd.h>
 #include <list>
 
 using namespace sim;
@@ -37,7 +38,7 @@ using namespace nodesim;
 
 namespace {
 
-enum { OP_IDX_RESTART = 100, OP_IDX_SYNC = 101, OP_IDX_CHECK = 102 };
+enum { OP_IDX_RESTART = 100, OP_IDX_SYNC = 101, OP_IDX_CHECK = 102, OP_IDX_PRUNE = 103, OP_IDX_TWIN = 104 };
 enum Kind { K_TX = 0, K_FILTER, K_STATS, K_SPENDER, NK };
 const char* const kName[NK] = {"txindex", "blockfilterindex", "coinstatsindex", "txospenderindex"};
 
@@ -62,6 +63,8 @@ std::string Describe(const Op& op)
                  (long)op.arg(3), (long)op.arg(4));
         return b;
     case OP_IDX_CHECK: snprintf(b, sizeof b, "index_check(full=%ld, compute_utxo_stats_at_tip=%ld)", (long)op.arg(0), (long)op.arg(1)); return b;
+    case OP_IDX_PRUNE: snprintf(b, sizeof b, "pruneblockchain(height#%ld) [prune runs only]", (long)op.arg(0)); return b;
+    case OP_IDX_TWIN: snprintf(b, sizeof b, "twin_reorg(sibling of the tip with the same transactions overtakes it, reorg_back=%ld)", (long)op.arg(0)); return b;
     case OP_RESTART:
         snprintf(b, sizeof b, "node_restart(clean; indexes: sync=%ld, FAULT shutdown_again_after_writes=%ld, clock+31s_at_write=%ld, then_sync=%ld)", (long)op.arg(0, 1), (long)op.arg(1), (long)op.arg(2), (long)op.arg(3, 1));
         return b;
@@ -78,9 +81,25 @@ Plan Gen(uint64_t seed, Tier tier)
     p.knobs["idx_mask"] = rng.chance(3, 4) ? 15 : rng.range(1, 15);
     p.knobs["idx_start"] = (int64_t)rng.below(4); // 0 with the empty chain (callbacks only), 1 after the base chain + full Sync, 2 after it, lagging, 3 off
     p.knobs["restart_to_enable"] = rng.chance(1, 2);
+    // calm = the two situations in which BaseIndex::Commit declines to write (index ahead of the last flushed chainstate block) are kept
+    // out of the run: no invalidateblock (which leaves a synced index ahead of the tip) and a chainstate flush right before every Sync()
+    p.knobs["calm"] = rng.chance(1, 2);
     p.knobs["idx_cache_kb"] = (int64_t)std::vector<int>{8, 64, 1024}[rng.below(3)];
+    // prune runs: a pruning node (manual pruning, 64 KiB block files) whose chain is extended by ~330 padded blocks so that whole block
+    // files fall out of the 288-block keep window; only the indexes that allow pruning (block filter, coin statistics) exist
+    const bool prune = rng.chance(1, 8);
+    p.knobs["prune"] = prune;
+    if (prune) {
+        p.knobs["on_disk"] = 1;
+        p.knobs["calm"] = 1; // invalidateblock could otherwise try to disconnect pruned blocks
+        p.knobs["idx_mask"] = (p.knobs["idx_mask"] & 6) ? (p.knobs["idx_mask"] & 6) : 6;
+        p.knobs["idx_start"] = (int64_t)rng.range(0, 1);
+        p.knobs["pad_down"] = rng.range(0, 30);   // padded blocks mined while the indexes are switched off
+        p.knobs["pad_lag"] = rng.range(310, 340); // padded blocks mined while the indexes are up but not syncing
+    }
     // swarm weights of the index operations
-    std::vector<uint32_t> w = {(uint32_t)(4 + rng.below(12)) /*restart*/, (uint32_t)(4 + rng.below(14)) /*sync*/, (uint32_t)(1 + rng.below(4)) /*check*/, (uint32_t)rng.below(6) /*extra flush*/};
+    std::vector<uint32_t> w = {(uint32_t)(4 + rng.below(12)) /*restart*/, (uint32_t)(4 + rng.below(14)) /*sync*/, (uint32_t)(1 + rng.below(4)) /*check*/, (uint32_t)rng.below(6) /*extra flush*/,
+                               (uint32_t)(prune ? 3 + rng.below(6) : 0) /*prune*/, (uint32_t)rng.below(5) /*twin reorg*/};
     const int pct = (int)rng.range(25, 60);
     const int intr_pct = (int)rng.range(20, 70);
     const int sync_pct = (int)rng.range(20, 80);
@@ -97,6 +116,8 @@ Plan Gen(uint64_t seed, Tier tier)
                 break;
             case 1: op = Op(OP_IDX_SYNC, {mask(), intr(), bump(), (int64_t)rng.chance(1, 2), (int64_t)rng.chance(1, 3)}); break;
             case 2: op = Op(OP_IDX_CHECK, {(int64_t)rng.chance(1, 2), (int64_t)rng.chance(1, 3)}); break;
+            case 4: op = Op(OP_IDX_PRUNE, {(int64_t)rng.below(1000)}); break;
+            case 5: op = Op(OP_IDX_TWIN, {(int64_t)rng.chance(2, 3), (int64_t)(rng.next() >> 16)}); break;
             default: op = Op(OP_FLUSH, {(int64_t)rng.below(4)}); break;
             }
             out.push_back(op);
@@ -106,6 +127,7 @@ Plan Gen(uint64_t seed, Tier tier)
         if (c.kind == OP_RESTART) c.a = {(int64_t)rng.chance(sync_pct, 100), intr(), bump(), (int64_t)rng.chance(1, 2)};
         out.push_back(c);
     }
+    if (prune) out.insert(out.begin(), Op(OP_IDX_PRUNE, {999})); // first thing after the padded extension: prune as far as the node allows
     p.ops = std::move(out);
     return p;
 }
@@ -213,6 +235,11 @@ struct IdxSim {
         std::unique_ptr<BaseIndex> obj;
         bool interrupted{false};
         bool need_full{false};
+        // what the index had reached when it was last stopped, to see at the next Init() whether the stop persisted it
+        bool have_down{false};
+        uint256 down_best;
+        int down_height{0};
+        bool gap{false}; //!< sticky: a clean stop did not persist this index's progress (BaseIndex::Commit skipped) at least once
     };
     // destroyed before nctx and cs (reverse declaration order)
     struct Slots {
@@ -225,6 +252,7 @@ struct IdxSim {
     std::string fatal_msg;
     std::vector<MBlock> mb;
     uint64_t opno{0};
+    bool node_restarted{false};
     bool any_event{false};   //!< a restart, an interrupted or rewinding sync, or a reorg seen by a synced index happened
     uint64_t checks{0};
 
@@ -264,7 +292,7 @@ struct IdxSim {
 
     void CheckFatal(const char* where)
     {
-        if (fatal || (nctx && nctx->exit_status.load() != EXIT_SUCCESS)) ctx.failf("index-fatal-error", "%s: an index requested node shutdown (BaseIndex::FatalErrorf)", where);
+        if (fatal || (nctx && nctx->exit_status.load() != EXIT_SUCCESS)) ctx.failf("index-fatal-error", "%s: an index requested node shutdown (BaseIndex::FatalErrorf)%s", where, AnyTag());
         if (cs.node->Fatal()) ctx.failf("node-fatal-error", "%s", where);
     }
 
@@ -278,11 +306,23 @@ struct IdxSim {
         return i >= 0 && t >= 0 && cs.ref->IsAncestor(i, t);
     }
 
+    // Marker carried by every event and violation that concerns an index whose progress was once lost across a clean stop
+    // (see the known finding of C21): keeps that finding apart from anything else the oracle may report.
+    static constexpr const char* kGapTag = " [uncommitted-index-progress: an earlier clean stop left this index's best-block locator behind the entries it had already written]";
+    const char* Tag(int k) { return slot[k].gap ? kGapTag : ""; }
+    const char* AnyTag()
+    {
+        for (int k = 0; k < NK; ++k)
+            if (slot[k].gap) return kGapTag;
+        return "";
+    }
+
     // ---- index life cycle ----
     void Create(int k, const char* where)
     {
         ProfScope ps("create+init");
         Slot& s = slot[k];
+        ctx.evf("init-start %s%s", kName[k], Tag(k));
         const size_t cache = (size_t)std::clamp<int64_t>(ctx.knob("idx_cache_kb", 1024), 4, 4096) * 1024;
         auto chain = interfaces::MakeChain(*nctx);
         switch (k) {
@@ -296,7 +336,13 @@ struct IdxSim {
         const bool ok = s.obj->Init();
         IndexSummary sum = s.obj->GetSummary();
         ctx.evf("up %s init=%d synced=%d best=%d/%s", kName[k], ok, sum.synced, sum.best_block_height, Hx(sum.best_block_hash).c_str());
-        if (!ok) ctx.failf("index-init-failed", "%s: %s Init() failed after a clean stop (the index considers its own database unusable)", where, kName[k]);
+        if (s.have_down && (sum.best_block_hash != s.down_best || sum.best_block_height != s.down_height)) {
+            // not a violation by itself (the index may redo the work), but everything written beyond the locator is now unknown to the index
+            s.gap = true;
+            ctx.probe("clean_stop_lost_index_progress");
+            ctx.evf("gap %s: stopped at %d/%s, restarted at %d/%s", kName[k], s.down_height, Hx(s.down_best).c_str(), sum.best_block_height, Hx(sum.best_block_hash).c_str());
+        }
+        if (!ok) ctx.failf("index-init-failed", "%s: %s Init() failed after a clean stop (the index considers its own database unusable)%s", where, kName[k], Tag(k));
         if (sum.synced) ctx.probe("init_at_tip");
         else {
             ctx.probe("init_behind");
@@ -308,6 +354,10 @@ struct IdxSim {
     {
         Slot& s = slot[k];
         if (!s.obj) return;
+        IndexSummary sum = s.obj->GetSummary();
+        s.have_down = true;
+        s.down_best = sum.best_block_hash;
+        s.down_height = sum.best_block_height;
         s.obj->Interrupt();
         s.obj->Stop();
         s.obj.reset();
@@ -326,6 +376,12 @@ struct IdxSim {
         if (before.synced) return true;
         const bool stale_start = !OnActive(before.best_block_hash);
         ProfScope ps("sync");
+        if (ctx.knob("calm", 0)) {
+            // calm runs: the chainstate has just been flushed whenever an index syncs, so BaseIndex::Commit never has a reason to skip
+            LOCK(cs_main);
+            cs.node->cs().ForceFlushStateToDisk(/*wipe_cache=*/false);
+        }
+        ctx.evf("sync-start %s%s", kName[k], Tag(k));
         SyncSeam seam;
         seam.idx = s.obj.get();
         seam.intr_after = intr_after;
@@ -338,13 +394,13 @@ struct IdxSim {
         IndexSummary after = s.obj->GetSummary();
         ctx.evf("sync %s from %d/%s -> synced=%d best=%d/%s writes=%ld intr=%d bump=%d", kName[k], before.best_block_height, Hx(before.best_block_hash).c_str(), after.synced, after.best_block_height,
                 Hx(after.best_block_hash).c_str(), (long)seam.writes, seam.intr_fired, seam.bump_fired);
-        CheckFatal(where);
+        CheckFatal((std::string(where) + Tag(k)).c_str());
         if (seam.writes > 0) ctx.probe("sync_processed_blocks");
         if (stale_start) { ctx.probe("sync_rewind_while_behind"); any_event = true; }
         if (seam.bump_fired) ctx.probe("sync_periodic_locator_write");
         if (seam.intr_fired) ctx.fault("sync_interrupted");
         if (!after.synced) {
-            if (!seam.intr_fired) ctx.failf("index-sync-incomplete", "%s: %s Sync() returned without an interrupt but the index is not synced (best height %d)", where, kName[k], after.best_block_height);
+            if (!seam.intr_fired) ctx.failf("index-sync-incomplete", "%s: %s Sync() returned without an interrupt but the index is not synced (best height %d)%s", where, kName[k], after.best_block_height, Tag(k));
             s.interrupted = true;
             any_event = true;
             ctx.probe("sync_interrupted_midway");
@@ -593,6 +649,8 @@ struct IdxSim {
             ctx.failf("computeutxostats-vs-model-mismatch", "%s: ComputeUTXOStats(MUHASH) over the node's coins database at the tip (h=%d): muhash %s coins %lu amount %ld; model: %s %lu %ld", where, H,
                       Hx(s->hashSerialized).c_str(), (unsigned long)s->coins_count, (long)s->total_amount.value_or(-1), Hx(m.muhash).c_str(), (unsigned long)m.count, (long)m.total);
         if (Synced(K_STATS)) {
+            const std::string wk = std::string(where) + Tag(K_STATS);
+            where = wk.c_str();
             const CBlockIndex* pi = Pindex(cs.ref->blocks[act[H]].hash);
             auto x = st()->LookUpStats(*pi);
             if (!x) ctx.failf("coinstats-missing", "%s: coinstatsindex has no entry for the tip (h=%d)", where, H);
@@ -636,11 +694,13 @@ struct IdxSim {
             const bool full = force_full || s.need_full;
             const std::vector<int>& hs = full ? all : win;
             ProfScope ps(kName[k]);
+            const std::string wk = std::string(where) + Tag(k);
+            ctx.evf("check-start %s%s", kName[k], Tag(k));
             switch (k) {
-            case K_TX: CheckTxIndex(where, act, hs); break;
-            case K_FILTER: CheckFilter(where, act, hs, full); break;
-            case K_STATS: CheckStats(where, act, hs); break;
-            default: CheckSpender(where, act, hs); break;
+            case K_TX: CheckTxIndex(wk.c_str(), act, hs); break;
+            case K_FILTER: CheckFilter(wk.c_str(), act, hs, full); break;
+            case K_STATS: CheckStats(wk.c_str(), act, hs); break;
+            default: CheckSpender(wk.c_str(), act, hs); break;
             }
             s.need_full = false;
             ++checks;
@@ -648,6 +708,94 @@ struct IdxSim {
             ctx.evf("check %s %s h=%d..%d ok", kName[k], full ? "full" : "window", full ? 0 : low, H);
         }
         ctx.fingerprint(fp);
+    }
+
+    // ---- prune runs ----
+    /** Extend the active chain by n blocks whose coinbase carries a 6 kB OP_RETURN output (about ten blocks per 64 KiB block file). */
+    void MinePadded(int n)
+    {
+        const Consensus::Params& cp = cs.node->params->GetConsensus();
+        for (int i = 0; i < n; ++i) {
+            const int parent = cs.TipIdx();
+            if (parent < 0) return;
+            const RefBlock& P = cs.ref->blocks[parent];
+            BlockExtras ex;
+            ex.cb_extranonce = (uint32_t)(++cs.cb_nonce);
+            ex.coinbase_spk = Keys().Spk(SK::P2WPKH, (int)(cs.cb_nonce % N_KEYS));
+            ex.extra_coinbase_outputs.emplace_back(0, CScript() << OP_RETURN << std::vector<unsigned char>(6000, (unsigned char)(cs.cb_nonce & 0xff)));
+            const int64_t time = std::max<int64_t>(cs.ref->MTP(parent) + 1, P.time + 30);
+            auto block = BuildBlock(P.hash, P.height + 1, time, {}, RefSubsidy(P.height + 1, cs.ref->halving_interval), ex, cp);
+            int idx = cs.AddBlock(block, parent, BlockLabel{});
+            cs.Deliver(idx, true);
+            if (cs.TipIdx() != idx) ctx.failf("sim-internal", "padded block #%d did not become the tip", idx);
+        }
+        CheckFatal("padded extension");
+    }
+
+    int LowestHeightWithData(const std::vector<int>& act)
+    {
+        LOCK(cs_main);
+        for (int h = 1; h < (int)act.size(); ++h) {
+            const CBlockIndex* pi = cs.node->cm().m_blockman.LookupBlockIndex(cs.ref->blocks[act[h]].hash);
+            if (pi && (pi->nStatus & BLOCK_HAVE_DATA)) return h;
+        }
+        return (int)act.size();
+    }
+
+    void PruneOp(const Op& op)
+    {
+        if (!ctx.knob("prune", 0)) return;
+        int tip = cs.TipIdx();
+        if (tip < 0) return;
+        const int H = cs.ref->blocks[tip].height;
+        const int height = (int)std::clamp<int64_t>((int64_t)H * (1 + (int64_t)op.mod(0, 1000)) / 1000, 1, H);
+        std::vector<int> act = Active(tip);
+        const int before = LowestHeightWithData(act);
+        {
+            LOCK(cs_main);
+            PruneBlockFilesManual(cs.node->cs(), height);
+        }
+        const int after = LowestHeightWithData(act);
+        ctx.probe("prune_op");
+        if (after > before) ctx.probe("block_files_pruned");
+        // what would have gone without the indexes' prune locks: everything up to min(height, H - 288)
+        int lowest_lag = H + 1;
+        for (int k = 0; k < NK; ++k)
+            if (slot[k].obj && !Synced(k)) lowest_lag = std::min(lowest_lag, slot[k].obj->GetSummary().best_block_height);
+        if (lowest_lag <= std::min(height, H - 288)) ctx.probe("prune_request_reaches_past_lagging_index");
+        ctx.evf("prune to %d (tip %d): lowest block with data %d -> %d", height, H, before, after);
+    }
+
+    /** The tip's transactions confirmed a second time in a sibling block that overtakes it (and, optionally, is overtaken again):
+     *  afterwards the same txids and the same spent outpoints exist in an active and in a stale block. */
+    void TwinReorg(const Op& op)
+    {
+        const int tip = cs.TipIdx();
+        if (tip <= 0) return;
+        const RefBlock B = cs.ref->blocks[tip];
+        if (B.block->vtx.size() < 2 || B.verdict != Verdict::VALID) return;
+        const Consensus::Params& cp = cs.node->params->GetConsensus();
+        BlockExtras ex;
+        ex.cb_extranonce = (uint32_t)(++cs.cb_nonce);
+        ex.coinbase_spk = Keys().Spk(SK::P2WPKH, (int)(cs.cb_nonce % N_KEYS));
+        std::vector<CTransactionRef> txs(B.block->vtx.begin() + 1, B.block->vtx.end());
+        auto twin = BuildBlock(cs.ref->blocks[B.parent].hash, B.height, B.time, txs, RefSubsidy(B.height, cs.ref->halving_interval) + B.fees, ex, cp);
+        const int t = cs.AddBlock(twin, B.parent, BlockLabel{});
+        if (cs.ref->blocks[t].verdict != Verdict::VALID) ctx.failf("sim-internal", "twin block #%d is not valid per the model: %s", t, cs.ref->blocks[t].reason.c_str());
+        cs.Deliver(t, true);
+        Rng r(mix64((uint64_t)op.arg(1), 0x7477696e));
+        const int t2 = cs.MineOn(t, 0, r.next(), D_NONE, B_NONE, 0);
+        cs.Deliver(t2, true);
+        if (cs.TipIdx() == t2) ctx.probe("twin_reorg");
+        if (op.arg(0)) {
+            int b1 = cs.MineOn(tip, 0, r.next(), D_NONE, B_NONE, 0);
+            cs.Deliver(b1, true);
+            int b2 = cs.MineOn(b1, 0, r.next(), D_NONE, B_NONE, 0);
+            cs.Deliver(b2, true);
+            if (cs.TipIdx() == b2) ctx.probe("twin_reorg_back");
+        }
+        if (cs.node->Fatal()) ctx.failf("node-fatal-error", "twin reorg");
+        cs.CheckAll("twin reorg");
     }
 
     // ---- operations ----
@@ -680,6 +828,7 @@ struct IdxSim {
             cs.node->Stop(/*clean=*/true);
             if (!cs.node->Start()) ctx.failf("restart-failed", "clean restart failed: %s", cs.node->last_error.c_str());
             MakeContext();
+            node_restarted = true;
             ctx.probe("clean_restart");
             if (was_up) ctx.probe("index_restart_with_node");
             ctx.evf("node restart tip=%s h=%d", Hx(cs.node->TipHash()).c_str(), cs.node->Height());
@@ -718,6 +867,9 @@ struct IdxSim {
             case 1: m = (up | m) & enabled; break;
             default: m = up & ~m; break;
             }
+            // a pruning node must not lose blocks an index still needs: init.cpp refuses to start such an index, a check this harness does not
+            // re-enact, so in prune runs no index is ever switched off (lagging indexes keep their prune locks)
+            if (ctx.knob("prune", 0)) m = enabled;
             if (up & ~m) ctx.probe("index_switched_off");
             if (m & ~up) ctx.probe("index_switched_on");
             Shutdown(op.arg(2) != 0, where);
@@ -738,6 +890,11 @@ struct IdxSim {
             }
             break;
         }
+        case OP_IDX_PRUNE: PruneOp(op); break;
+        case OP_IDX_TWIN:
+            if (AnyTag()[0]) ctx.evf("chain-op-start%s", AnyTag());
+            TwinReorg(op);
+            break;
         case OP_IDX_CHECK: {
             int tip = cs.TipIdx();
             if (tip < 0) break;
@@ -772,6 +929,16 @@ struct IdxSim {
         const int start_mode = (int)std::clamp<int64_t>(ctx.knob("idx_start", 1), 0, 3);
         slots_holder = std::make_unique<Slots>();
         slot = slots_holder->s;
+        const bool prune = ctx.knob("prune", 0) != 0;
+        if (prune) {
+            enabled &= (1 << K_FILTER) | (1 << K_STATS); // TxIndex and TxoSpenderIndex refuse to run on a pruning node
+            if (!enabled) enabled = (1 << K_FILTER) | (1 << K_STATS);
+            cs.tweak_opts = [](NodeOpts& o) {
+                o.prune_target = 1; // manual pruning
+                o.fast_prune = true;
+                o.regtest.fastprune = true;
+            };
+        }
         cs.on_node_started = [&] {
             MakeContext();
             if (start_mode == 0) BringUp(enabled, true, 0, 0, false, false, "start with an empty chain");
@@ -787,6 +954,15 @@ struct IdxSim {
             BringUp(enabled, start_mode == 1, 0, 0, false, false, "enable the indexes after the base chain");
         }
         CheckIndexes("after the base chain", 0, true);
+        if (prune) {
+            // the indexes know the base chain; now the node runs without them for a while, then with them enabled but not syncing (their
+            // prune locks rest at the base chain) while the chain grows far enough that whole block files leave the keep window
+            if (UpMask()) Shutdown(false, "padded extension");
+            MinePadded((int)std::clamp<int64_t>(ctx.knob("pad_down", 10), 0, 100));
+            BringUp(enabled, false, 0, 0, false, false, "padded extension");
+            MinePadded((int)std::clamp<int64_t>(ctx.knob("pad_lag", 320), 0, 600));
+            CheckIndexes("after the padded extension", 0, false);
+        }
 
         for (const Op& op : ctx.plan.ops) {
             ++opno;
@@ -795,8 +971,14 @@ struct IdxSim {
             for (int k = 0; k < NK; ++k) synced_before[k] = Synced(k);
             if (op.kind >= 100) ExecIdxOp(op);
             else if (op.kind == OP_RESTART) NodeRestart(op);
-            else {
+            else if ((ctx.knob("calm", 0) || node_restarted) && (op.kind == OP_INVALIDATE || op.kind == OP_RECONSIDER)) {
+                // calm runs never leave an index ahead of the chain tip. After a real node restart the block index entries loaded from disk share
+                // one sequence id, and validation breaks ties between equal-work candidates that are not on the active chain by pointer address:
+                // which of them becomes the tip after an invalidateblock/reconsiderblock would differ from run to run
+                if (node_restarted) ctx.probe("invalidate_skipped_after_node_restart");
+            } else {
                 ProfScope ps("chain ops");
+                if (AnyTag()[0]) ctx.evf("chain-op-start%s", AnyTag());
                 cs.ExecOp(op);
             }
             const std::string d = Describe(op);
@@ -844,6 +1026,21 @@ struct IdxSim {
 
 void Run(Ctx& ctx)
 {
+    // debugging aid: VERIF_C21_TRACE=<dir> writes the event log of every run to <dir>/<seed>.<pid>.log
+    struct TraceDump {
+        Ctx& c;
+        bool on;
+        explicit TraceDump(Ctx& cc) : c(cc), on(getenv("VERIF_C21_TRACE") != nullptr) { if (on) c.verbose = true; }
+        ~TraceDump()
+        {
+            if (!on) return;
+            std::string path = std::string(getenv("VERIF_C21_TRACE")) + "/" + std::to_string(c.plan.seed) + "." + std::to_string((long)getpid()) + ".log";
+            if (FILE* f = fopen(path.c_str(), "w")) {
+                for (auto& l : c.log) fprintf(f, "%s\n", l.c_str());
+                fclose(f);
+            }
+        }
+    } dump(ctx);
     IdxSim s(ctx);
     s.Run();
 }
@@ -858,32 +1055,39 @@ Engine MakeEngine()
     e.run = Run;
     e.describe = Describe;
     e.chunk = 1;
-    e.quick_runs = 300;
-    e.thorough_runs = 9000;
+    e.quick_runs = 600;
+    e.thorough_runs = 15000;
     e.quick_budget_s = 50;
     e.thorough_budget_s = 900;
     e.rule = "each run = one seeded block-tree history on a real regtest node (base chain of 101-118 blocks, then the shared chain workload with c09 bias: blocks with 0-6 transactions spending across fork points, "
-             "30-60% forks, reorg operations of depth 1-6, invalidateblock/reconsiderblock, forced/periodic flushes, clean node restarts) interleaved with index operations on the real TxIndex, BlockFilterIndex(basic), "
-             "CoinStatsIndex and TxoSpenderIndex: switch an index off / on (it falls behind while the chain moves and reorganizes), inline BaseIndex::Sync(), interrupt a running Sync() after its N-th database write "
-             "(= restart in the middle of sync: the object is stopped, destroyed and re-created from its database), step the clock past the 30 s locator-write interval inside Sync(), restart an index with or without a "
-             "preceding chainstate flush, restart the node with its indexes. Knobs: enabled index subset, when the indexes first start (before the base chain / after it with a full sync / lagging / off), index DB cache, "
-             "on-disk vs in-memory chainstate, coins cache and batch size. After every operation every index that reports itself synced is compared with recomputation from the model over the changed part of the active "
-             "chain plus seeded older heights, over the whole chain after every (re)start or completed sync and at the end (where every index must sync without interruption); non-trivial = at least one comparison ran "
-             "and a restart, an interrupted or rewinding sync, or a reorg seen by a synced index occurred; distinct = distinct (tip, height, per-index up/interrupted/lag) fingerprints (first 64 per run).";
-    e.real_components = {"BaseIndex (Init/Sync/Rewind/Commit/BlockConnected/ChainStateFlushed/Interrupt/Stop)", "TxIndex", "BlockFilterIndex + BlockFilter/GCSFilter + fltr flat files", "CoinStatsIndex + MuHash3072",
-                         "TxoSpenderIndex", "kernel::ComputeUTXOStats", "interfaces::Chain (node/interfaces.cpp)", "ChainstateManager/Chainstate/BlockManager (block + undo files)", "LevelDB", "ValidationSignals"};
+             "30-60% forks, reorg operations of depth 1-6, invalidateblock/reconsiderblock, forced/periodic flushes) interleaved with operations on the real TxIndex, BlockFilterIndex(basic), CoinStatsIndex and "
+             "TxoSpenderIndex, which start and stop only the way a node starts and stops them: shutdown (interrupt, chainstate flush with the indexes still listening, stop; optionally a real node restart) followed by "
+             "start of a changed index set (an index that is switched off falls behind while the chain moves and reorganizes), Init() and inline BaseIndex::Sync() calls at seeded points; a running Sync() can be cut "
+             "by a shutdown after its N-th database write (= restart in the middle of sync) and can have the clock stepped past the 30 s locator-write interval; twin reorgs confirm the same transactions in a stale "
+             "and an active block. Knobs: enabled index subset, when the indexes first start (empty chain / after the base chain with full sync / lagging / off), index DB cache, on-disk vs in-memory chainstate, coins "
+             "cache and batch size, calm (no invalidateblock, chainstate flushed before every Sync: BaseIndex::Commit then never declines to write), prune (1/8 of runs: manually pruned node with 64 KiB block files, "
+             "chain extended by ~330 padded blocks while block filter and coinstats indexes lag, pruneblockchain operations). After every operation every index that reports itself synced is compared with "
+             "recomputation from the model over the changed part of the active chain plus seeded older heights; over the whole chain after every start or completed sync and at the end, where every enabled index must "
+             "sync without interruption and the tip statistics are also compared with the node's own ComputeUTXOStats. non-trivial = at least one comparison ran and a shutdown/start, an interrupted or rewinding sync, "
+             "or a reorg seen by a synced index occurred; distinct = distinct (tip, height, per-index up/interrupted/lag) fingerprints (first 64 per run).";
+    e.real_components = {"BaseIndex (Init/Sync/Rewind/Commit/BlockConnected/ChainStateFlushed/Interrupt/Stop, prune locks)", "TxIndex", "BlockFilterIndex + BlockFilter/GCSFilter + fltr flat files", "CoinStatsIndex + MuHash3072",
+                         "TxoSpenderIndex", "kernel::ComputeUTXOStats", "interfaces::Chain (node/interfaces.cpp)", "ChainstateManager/Chainstate/BlockManager (block + undo files, manual pruning)", "LevelDB", "ValidationSignals"};
     e.stub_components = {"index sync thread (Sync() called inline at seeded points; no concurrent block connection: that is the threadsim part of the design)",
-                         "interrupt timing (logging callback counting the index's own WriteBatch debug lines)", "ValidationSignals task runner (immediate)", "peers (blocks handed to ProcessNewBlock)", "clock (SetMockTime)"};
+                         "shutdown timing inside Sync() (logging callback counting the index's own CDBWrapper::WriteBatch debug lines, then BaseIndex::Interrupt())", "ValidationSignals task runner (immediate)",
+                         "peers (blocks handed to ProcessNewBlock)", "clock (SetMockTime)", "init.cpp (index start/stop order re-enacted by the harness; its 'index needs pruned data' start-up check is not run: the harness never "
+                         "prunes while an index is switched off)"};
     e.assumptions = {"RefChain model (block validity, UTXO(block)) is correct (see C08/C09)",
                      "the genesis coinbase is not expected in the txindex (excluded by design)",
                      "txindex and txospenderindex are checked in the positive direction only (every active transaction / spent outpoint is found with its active block); stale extra entries are not a violation",
                      "the model filter uses the repo's GCSFilter encoder and SipHash, the model MuHash uses the repo's MuHash3072 arithmetic (primitives); element selection, keying, header chaining, coin serialisation, set "
                      "contents and insertion order are the model's own",
                      "cumulative coinstats amounts follow the field documentation in kernel/coinstats.h (coinbase amount = spendable coinbase outputs; unclaimed = subsidy + fees - coinbase outputs)",
-                     "restarts are clean (index stopped after the chainstate flush, or stopped at an arbitrary moment while the node keeps running); crashes of the process are C16's subject"};
+                     "restarts are clean (shutdown order of init.cpp); process crashes are C16's subject",
+                     "violations on an index whose progress was once not persisted by a clean stop carry the marker 'uncommitted-index-progress' (known finding); everything else is reported unmarked"};
     e.expected_probes = {"full_check", "txindex_lookups", "filter_lookups", "filter_range_lookups", "coinstats_lookups", "spender_lookups", "coinstats_vs_computeutxostats", "reorg_seen_by_synced_index",
-                         "reorg_while_index_behind_or_off", "sync_rewind_while_behind", "sync_interrupted_midway", "sync_interrupted_after_rewind", "restart_in_the_middle_of_sync", "sync_periodic_locator_write", "index_restart",
-                         "index_restart_with_node", "init_behind", "init_on_stale_branch", "init_at_tip", "index_behind_tip", "clean_restart", "reorg", "invalidateblock"};
+                         "reorg_while_index_behind_or_off", "sync_rewind_while_behind", "sync_interrupted_midway", "sync_interrupted_after_rewind", "restart_in_the_middle_of_sync", "sync_periodic_locator_write",
+                         "index_shutdown", "index_restart_with_node", "index_switched_off", "index_switched_on", "init_behind", "init_on_stale_branch", "init_at_tip", "index_behind_tip", "clean_restart", "reorg",
+                         "invalidateblock", "twin_reorg", "twin_reorg_back", "clean_stop_lost_index_progress", "prune_op", "block_files_pruned", "prune_request_reaches_past_lagging_index"};
     return e;
 }
 Engine g_engine = MakeEngine();
